@@ -6,7 +6,7 @@
    (apart from delete/reset/config on the object sets); number agreement and crash freedom of the C++ are
    checked by the oracle of props/C20/check.py, not proved. *)
 From Coq Require Import ZArith List Bool String Permutation.
-From CV Require Import C20.ScriptModel C20.ScriptProofs C20.ScriptTable C20.GradModel C20.GradProofs Gen.GenScript.
+From CV Require Import C20.ScriptModel C20.ScriptProofs C20.ScriptTable C20.GradModel C20.GradProofs C20.SemModel C20.SemProofs Gen.GenScript.
 Import ListNotations.
 Local Open Scope string_scope.
 Local Open Scope Z_scope.
@@ -131,6 +131,74 @@ Theorem C20_gradients_attributed_to_their_ids : forall (T : Type) (add : T -> T 
 Proof. exact gradients_attributed_to_their_ids. Qed.
 Print Assumptions C20_gradients_attributed_to_their_ids.
 
+(* ---- semantic layer (SemModel.v): the numbers held after a step and the query bodies as projections ---- *)
+(* a query command (15 of them: value, getappliedforce, gettotalforce, getatomids, bias energy, getenergy, getstepabsolute,
+   getnumatoms, the five proxy-side atom arrays, getatomids, list) returns the component of the state and changes nothing *)
+Theorem C20_getters_read_state : forall (T : Type) tbl parse_conf read_file (st : @sem T) words k e ex,
+  dispatch tbl (st_cvs (sm_objs st)) (bias_names (sm_objs st)) words = Run k e ex ->
+  In (e_name e) query_names ->
+  exists r, pure_query st (e_name e) (nth 2 words "") (nth_error words 2) = Some r /\
+            exec_sem tbl parse_conf read_file st words = (st, Run k e ex, r).
+Proof. exact (@getters_read_state). Qed.
+Print Assumptions C20_getters_read_state.
+
+(* 43 further commands (version, help, getconfig, printframe, savetostring, type, state, get ...) change nothing either *)
+Theorem C20_inert_commands_change_nothing : forall (T : Type) tbl parse_conf read_file (st : @sem T) words k e ex,
+  dispatch tbl (st_cvs (sm_objs st)) (bias_names (sm_objs st)) words = Run k e ex ->
+  inert (e_name e) = true ->
+  exec_sem tbl parse_conf read_file st words = (st, Run k e ex, QOk).
+Proof. exact (@inert_changes_nothing). Qed.
+Print Assumptions C20_inert_commands_change_nothing.
+
+(* after a step, and after any number of rejected calls, queries and inert calls, the queries on a variable return the numbers
+   observed at that step (same for the module-level energy and atom arrays) *)
+Theorem C20_query_returns_last_observation : forall (T : Type) tbl parse_conf read_file (st : @sem T) ob qs x d,
+  alookup x (sm_cv st) <> None -> alookup x (ob_cv ob) = Some d ->
+  let st1 := sem_step st ob in
+  Forall (quiet tbl st1) qs ->
+  let st2 := run_sevents tbl parse_conf read_file st1 (map (@SCmd T) qs) in
+  st2 = st1 /\
+  pure_query st2 "colvar_value" x None = Some (QReal (cd_value d)) /\
+  pure_query st2 "colvar_getappliedforce" x None = Some (QReal (cd_af d)) /\
+  pure_query st2 "colvar_gettotalforce" x None = Some (QReal (cd_tf d)) /\
+  pure_query st2 "colvar_getatomids" x None = Some (QInts (cd_atoms d)) /\
+  pure_query st2 "cv_getenergy" x None = Some (QReal6 (md_energy (ob_mod ob))) /\
+  pure_query st2 "cv_getatomappliedforces" x None = Some (QVecs (md_af (ob_mod ob))) /\
+  pure_query st2 "cv_getatompositions" x None = Some (QVecs (md_pos (ob_mod ob))).
+Proof. exact (@query_returns_last_observation). Qed.
+Print Assumptions C20_query_returns_last_observation.
+
+Theorem C20_bias_energy_returns_last_observation : forall (T : Type) (st : @sem T) ob b en,
+  alookup b (sm_bias st) <> None -> alookup b (ob_bias ob) = Some en ->
+  pure_query (sem_step st ob) "bias_energy" b None = Some (QReal6 en).
+Proof. exact (@bias_energy_returns_last_observation). Qed.
+Print Assumptions C20_bias_energy_returns_last_observation.
+
+(* getgradients (repaired behaviour): without the feature, or before a step has followed its activation, the answer is an
+   error, the feature is on afterwards and the gradients stay unavailable until a step *)
+Theorem C20_getgradients_needs_a_step : forall (T : Type) (st : @sem T) e words x c,
+  e_name e = "colvar_getgradients" -> nth 2 words "" = x -> alookup x (sm_cv st) = Some c ->
+  (cs_collect c = false \/ cs_valid c = Some false) ->
+  snd (body_sem st e words) = QErr /\
+  forall c', alookup x (sm_cv (fst (body_sem st e words))) = Some c' -> cs_collect c' = true /\ cs_valid c' = Some false.
+Proof. exact (@getgradients_needs_a_step). Qed.
+Print Assumptions C20_getgradients_needs_a_step.
+
+(* ... and after a step that ran through, with the feature on and the variable active, the answer is the gradients observed *)
+Theorem C20_getgradients_after_step : forall (T : Type) (st : @sem T) ob e words x c d,
+  e_name e = "colvar_getgradients" -> nth 2 words "" = x -> alookup x (sm_cv st) = Some c -> alookup x (ob_cv ob) = Some d ->
+  cs_collect c = true -> ob_ok ob = true -> cd_active d = true ->
+  body_sem (sem_step st ob) e words = (sem_step st ob, QVecs (cd_grads d)).
+Proof. exact (@getgradients_after_step). Qed.
+Print Assumptions C20_getgradients_after_step.
+
+(* over ANY history of calls, steps with arbitrary observations and engine-side configurations the data stay attached to
+   exactly the objects that exist (nothing can be read about a deleted object, a new object starts unknown) *)
+Theorem C20_data_follow_objects_over_any_history : forall (T : Type) tbl parse_conf read_file evs (st : @sem T),
+  sem_wf st -> sem_wf (run_sevents tbl parse_conf read_file st evs).
+Proof. exact (@run_sevents_wf). Qed.
+Print Assumptions C20_data_follow_objects_over_any_history.
+
 (* ---- the premises of the implications above are satisfiable ---- *)
 Example C20_example_dispatch :
   dispatch script_table ["x"] [] ["cv"; "version"] = Run OModule ("cv_version", 0, 0) true /\
@@ -175,4 +243,32 @@ Proof.
   repeat split; try reflexivity. cbn [List.concat app].
   apply Permutation_trans with ((1, 20) :: (3, 10) :: (4, 5) :: (1, 7) :: nil); [apply perm_swap|].
   apply perm_skip, perm_skip, perm_swap.
+Qed.
+
+Definition ex_sem : @sem Z :=
+  mk_sem ex_st [("x", mk_cvsem None false (Some false))] [("h", None)] None.
+Definition ex_ob : @obs Z :=
+  mk_obs true (mk_moddata 7 42%Z [0%Z] [1%Z] [0%Z] [(1, 2, 3)%Z] [(4, 5, 6)%Z] [(0, 0, 0)%Z])
+         [("x", mk_cvdata 11%Z 12%Z 13%Z true [0%Z] [(1, 0, 0)%Z])] [("h", 5%Z)].
+(* a step, malformed calls and queries, then the queries; getgradients: error, still error after set, answer after a step *)
+Example C20_example_semantics :
+  sem_wf ex_sem /\
+  Forall (quiet script_table (sem_step ex_sem ex_ob)) [["cv"; "colvar"; "x"; "value"]; ["cv"; "nosuch"]; ["cv"; "version"]; ["cv"; "colvar"; "x"; "value"; "1"]] /\
+  snd (exec_sem script_table ex_parse ex_read (sem_step ex_sem ex_ob) ["cv"; "colvar"; "x"; "value"]) = QReal 11%Z /\
+  snd (exec_sem script_table ex_parse ex_read (sem_step ex_sem ex_ob) ["cv"; "bias"; "h"; "energy"]) = QReal6 5%Z /\
+  snd (exec_sem script_table ex_parse ex_read (sem_step ex_sem ex_ob) ["cv"; "colvar"; "x"; "getgradients"]) = QErr /\
+  (let st := run_sevents script_table ex_parse ex_read ex_sem
+               [SStep ex_ob; SCmd ["cv"; "colvar"; "x"; "getgradients"]; SCmd ["cv"; "colvar"; "x"; "set"; "collect_gradient"; "on"]] in
+   snd (exec_sem script_table ex_parse ex_read st ["cv"; "colvar"; "x"; "getgradients"]) = QErr /\
+   snd (exec_sem script_table ex_parse ex_read (sem_step st ex_ob) ["cv"; "colvar"; "x"; "getgradients"]) = QVecs [(1, 0, 0)%Z]) /\
+  snd (exec_sem script_table ex_parse ex_read
+         (run_sevents script_table ex_parse ex_read ex_sem [SStep ex_ob; SCmd ["cv"; "colvar"; "x"; "addforce"; "1"]]) ["cv"; "colvar"; "x"; "value"]) = QOk.
+Proof.
+  split; [split; reflexivity|]. split.
+  { apply Forall_cons; [|apply Forall_cons; [|apply Forall_cons; [|apply Forall_cons; [|apply Forall_nil]]]]; unfold quiet.
+    - right. exists OColvar, ("colvar_value", 0, 0)%Z, true. split; [vm_compute; reflexivity | left; left; reflexivity].
+    - left. vm_compute. reflexivity.
+    - right. exists OModule, ("cv_version", 0, 0)%Z, true. split; [vm_compute; reflexivity | right; vm_compute; reflexivity].
+    - left. vm_compute. reflexivity. }
+  vm_compute. repeat split.
 Qed.
